@@ -18,6 +18,11 @@ static TaskPlan gen_client(Rng &r, bool thorough) {
         std::string fam = kFamilies[r.below(sizeof(kFamilies) / sizeof(kFamilies[0]))];
         int n = fam == "tiny" ? r.range(1, 3) : r.range(2, nmax);
         Mat A = gen_pattern(r, n, n, fam); gen_values(r, A, "dominant", cplx); A.family = fam + "/dominant"; // nonsingular, modest growth
+        // compressed-column storage does not require sorted row indices inside a column: a third of the matrices come unsorted (own stream)
+        { Hash64 hp; hp.u64((uint64_t)A.n * 1000003ULL + (uint64_t)A.nnz()); for (int v : A.rowind) hp.u64((uint64_t)v); Rng rs(hp.h ^ 0xC20);
+          if (rs.chance(0.33)) { for (int j = 0; j < A.n; j++) for (int k = A.colptr[j + 1] - 1; k > A.colptr[j]; k--) { int q = A.colptr[j] + (int)rs.below((uint64_t)(k - A.colptr[j] + 1));
+                  std::swap(A.rowind[k], A.rowind[q]); std::swap(A.re[k], A.re[q]); std::swap(A.im[k], A.im[q]); }
+              A.trans.clear(); A.family += "/unsorted"; } }
         t.mats.push_back(A);
     }
     // per handle: factor, k solves, free ; then a random interleaving that keeps each handle's own order
@@ -33,6 +38,7 @@ static TaskPlan gen_client(Rng &r, bool thorough) {
             for (int k = 0; k < ns; k++) {
                 Op sv; sv.kind = "bsolve"; sv.handle = h; sv.nrhs = r.range(1, 3); sv.ldpad = r.chance(0.4) ? r.range(1, 3) : 0; sv.rhs_seed = r.next();
                 if ((sv.rhs_seed >> 40) % 8 == 0) sv.nrhs = 0; // a solve request without right-hand sides is legal and touches nothing
+                else if ((sv.rhs_seed >> 44) % 40 == 0) sv.nrhs = 60 + (int)((sv.rhs_seed >> 50) % 80); // "all nrhs": now and then many right-hand sides at once
                 if (have && r.chance(0.3)) sv = last; // the same solve again
                 per[h].push_back(sv); last = sv; have = true;
             }
